@@ -151,7 +151,7 @@ def run_traces(ctx):
     out = ctx.scratch("keytraces")
     e = dict(env)
     e["ZZV_OUT_DIR"] = out
-    e["ZZV_ROUNDS"] = 1 if ctx.quick() else 6
+    e["ZZV_ROUNDS"] = 1 if ctx.quick() else 10
     r = ctx.gotest("agent", HFILES, "^TestZZVKeysTrace$", env=e, timeout=1500)
     topos = {}
     for t in r.of("topo"):
@@ -177,13 +177,13 @@ def require_completed(ctx, T):
         raise vf.Infra("the real agents did not complete %d operation(s), e.g. %s" % (len(T["failed"]), T["failed"][:3]))
 
 
-def validate(ctx, nt, events, name, dev=()):
+def validate(ctx, nt, events, name, dev=(), invs=TRACE_INVS):
     path = os.path.join(ctx.work, name + ".ndjson")
     vf.write_ndjson(path, events)
     cfgname = "Trace_%s.cfg" % name
     e = {"TRACE_FILE": path}
     res = ctx.tlc("TraceKeyAgreement", cfgname, files={cfgname: cfg(nt=nt, k1=ALLK, k2=ALLK, rids=[], maxdata=1000000, dev=dev,
-                                                                     invs=TRACE_INVS, trace=True)},
+                                                                     invs=invs, trace=True)},
                   workers=1, env=e, expect_violation=True, name=name, tags=("HW", "LEN"), dump_trace=False)
     hw = [o for t, o in res.prints if t == "HW"]
     ln = [o for t, o in res.prints if t == "LEN"]
@@ -205,7 +205,7 @@ def classify(ctx, nt, seg, idx, name):
     out = []
     for d in DEVS:
         try:
-            v = validate(ctx, nt, seg, name + "-" + d, dev=[d])
+            v = validate(ctx, nt, seg, name + "-" + d, dev=[d], invs="")
         except vf.Infra:
             continue
         if v["invariant"] is None and v["hw"] is not None and v["hw"] > idx:
